@@ -39,6 +39,8 @@ Verdict(C) ==
            Fail(OneIndexPerFunctional(C.G, C.A, M, sig, fam, dim), "OneIndexPerFunctional") } ELSE {},
          \* projections
          Fail(C.nodefunc => (C.nmono = nmono /\ C.rep.n > 0 /\ C.rep.bad = 0), "Reproduce"),
+         \* the vector-field overload of the interpolation, each field interpolated into the vector that holds the previous result
+         Fail((C.nodefunc /\ C.vecfield) => (C.vrep.n > 0 /\ C.vrep.bad = 0), "ReproduceVectorField"),
          \* judged on the reproduced polynomials only: where Reproduce fails the derivatives of a different function are compared
          Fail((C.nodefunc /\ C.rep.bad = 0) => (C.dgrad.bad = 0 /\ C.dhess.bad = 0 /\ (C.hasgrad => C.dgrad.n > 0) /\ (C.hashess => C.dhess.n > 0)), "DerivConsistent"),
          Fail((h1 /\ C.nintfacets > 0) => (C.jump.n > 0 /\ C.jump.bad = 0), "Continuous"),
